@@ -115,6 +115,40 @@ def run(ck):
             term = (f"let t := {t} in enc_replay_diag {enc} (run_trace ({prog}) t 0) ++ ((-7)%Z :: trace_balance t) ++ "
                     f"[(if trace_fresh t [] then 1 else 0)%Z]")
             cases.append((len(cases), term, job, res, tag))
+    # ---- error paths: a descriptor forgotten on one particular early return.  For a fixed set of operations: one fault at
+    # every call of the unfaulted trace x errnos a kernel can plausibly answer there; the descriptor-table oracle on every run.
+    from props.C10 import OPS as SWEEP_OPS, TREE as SWEEP_TREE
+    ERRNOS = (24, 23, 12, 13, 5, 4, 38, 22, 1) if thorough else (24, 13, 38)
+    for deny in ((), ("openat2",)):
+        tag = ",".join(deny) or "none"
+        basej = []
+        for i, op in enumerate(SWEEP_OPS):
+            j = {"id": 7000000 + i, "op": op, "snap": "none"}
+            if not op["k"].startswith("proc_"):
+                j["tree"] = SWEEP_TREE
+            basej.append(j)
+        _, bres, _ = run_driver_parallel(basej, deny=deny, tag="c11sb" + tag.replace(",", ""), shards=4)
+        sweep = []
+        for j in basej:
+            b_ = bres.get(j["id"])
+            if not b_ or "trace" not in b_:
+                continue
+            for at, ev in enumerate(b_["trace"]):
+                if ev["c"] in ("gettid", "geteuid", "close") or (ev["c"] == "fcntl" and ev.get("cmd") == 1):
+                    continue
+                for en in ERRNOS:
+                    j2 = dict(j)
+                    j2["id"] = 8000000 + len(sweep)
+                    j2["policy"] = {"fault": {"at": at, "errno": en}}
+                    j2["trace"] = False
+                    sweep.append(j2)
+        if not thorough and len(sweep) > 1800:
+            sweep = rng.sample(sweep, 1800)
+        sby = {j2["id"]: j2 for j2 in sweep}
+        _, sres, _ = run_driver_parallel(sweep, deny=deny, tag="c11sw" + tag.replace(",", ""))
+        for jid, res in sres.items():
+            stats["error_path_runs"] = stats.get("error_path_runs", 0) + 1
+            fd_oracle(ck, sby[jid], res, tag, stats)
     if ck.proof_broken:
         evals, cerrs = {}, []
     else:
@@ -156,6 +190,7 @@ def run(ck):
                          {"job": J.describe(job), "deny": tag, "replay": rep, "real_outcome": r,
                           "around": tr[max(0, at - 2):at + 2]}, False)
     cov = {
+        "error_path_runs_with_fd_table_oracle": stats.get("error_path_runs", 0),
         "evaluations": stats["jobs"],
         "distinct_nontrivial": len(nontrivial),
         "rule": "random trees x ops (lookups, mutators, reopen, procfs on three handle kinds) through the Rust and C API, "
